@@ -16,6 +16,7 @@ Data formats that describe the general structure of the data.
 # You should have received a copy of the GNU Lesser General Public License
 # along with this program.  If not, see <http://www.gnu.org/licenses/>.
 import codecs
+import copy
 import csv
 import string
 import token
@@ -116,6 +117,8 @@ class DataFormat(object):
         self._format = format_name if format_name != "csv" else FORMAT_DELIMITED
         self._header = 0
         self._is_valid = False
+        #: Where in the CID the properties have been set, to tell the location of contradicting ones.
+        self._property_locations = {}
         self._allowed_characters = None
         self._encoding = "cp1252"
         if self.format == FORMAT_DELIMITED:
@@ -402,6 +405,8 @@ class DataFormat(object):
                 % (_compat.text_repr(name), self.format, _compat.text_repr(value), valid_property_names),
                 location,
             )
+        if location is not None:
+            self._property_locations[name] = copy.copy(location)
 
     @staticmethod
     def _validated_choice(key, value, choices, location, ignore_case=False):
@@ -526,7 +531,6 @@ class DataFormat(object):
         """
         assert not self._is_valid, "validate() must be used only once on data format: %s" % self
 
-        # TODO: Remember locations where properties have been set.
         # TODO: Add see_also_locations for contradicting properties.
         def check_distinct(name1, name2):
             assert name1 is not None
@@ -535,9 +539,14 @@ class DataFormat(object):
             value1 = self.__dict__["_" + name1]
             value2 = self.__dict__["_" + name2]
             if value1 == value2:
+                # Report the location of the property that has been set last and caused the contradiction.
+                locations = [
+                    self._property_locations[name] for name in (name1, name2) if name in self._property_locations
+                ]
                 raise errors.InterfaceError(
                     "'%s' and '%s' are both %s but must be different from each other"
-                    % (name1, name2, _compat.text_repr(value1))
+                    % (name1, name2, _compat.text_repr(value1)),
+                    max(locations, key=lambda location: location.line) if locations else None,
                 )
 
         if self.format in (FORMAT_DELIMITED, FORMAT_FIXED):
